@@ -160,6 +160,16 @@ func (ipv6cp *IPV6CPStateMachine) setState(newState IPV6CPState) {
 	oldState := ipv6cp.state
 	ipv6cp.state = newState
 
+	// The restart timer only runs while negotiating or terminating (RFC 1661
+	// section 4.6: Req-Sent, Ack-Rcvd, Ack-Sent, Closing, Stopping); it is
+	// stopped on entering any other state and otherwise left alone, so that a
+	// peer that falls silent after a reply cannot leave the automaton waiting
+	// forever
+	switch newState {
+	case IPV6CPStateInitial, IPV6CPStateStarting, IPV6CPStateClosed, IPV6CPStateStopped, IPV6CPStateOpened:
+		ipv6cp.stopTimer()
+	}
+
 	ipv6cp.logger.Debug("IPV6CP state change",
 		zap.String("from", oldState.String()),
 		zap.String("to", newState.String()),
@@ -428,8 +438,6 @@ func (ipv6cp *IPV6CPStateMachine) receiveConfigureAck(pkt *LCPPacket) error {
 		return nil
 	}
 
-	ipv6cp.stopTimer()
-
 	switch ipv6cp.state {
 	case IPV6CPStateClosed, IPV6CPStateStopped:
 		ipv6cp.sendTerminateAck(pkt.Identifier)
@@ -455,8 +463,6 @@ func (ipv6cp *IPV6CPStateMachine) receiveConfigureNak(pkt *LCPPacket) error {
 	if pkt.Identifier != ipv6cp.lastIdentifier {
 		return nil
 	}
-
-	ipv6cp.stopTimer()
 
 	// Process NAK options
 	opts, _ := ParseLCPOptions(pkt.Data)
@@ -493,8 +499,6 @@ func (ipv6cp *IPV6CPStateMachine) receiveConfigureReject(pkt *LCPPacket) error {
 		return nil
 	}
 
-	ipv6cp.stopTimer()
-
 	switch ipv6cp.state {
 	case IPV6CPStateClosed, IPV6CPStateStopped:
 		ipv6cp.sendTerminateAck(pkt.Identifier)
@@ -514,7 +518,6 @@ func (ipv6cp *IPV6CPStateMachine) receiveConfigureReject(pkt *LCPPacket) error {
 
 // receiveTerminateRequest handles incoming Terminate-Request
 func (ipv6cp *IPV6CPStateMachine) receiveTerminateRequest(pkt *LCPPacket) error {
-	ipv6cp.stopTimer()
 
 	switch ipv6cp.state {
 	case IPV6CPStateClosed, IPV6CPStateStopped, IPV6CPStateClosing, IPV6CPStateStopping:
@@ -524,6 +527,7 @@ func (ipv6cp *IPV6CPStateMachine) receiveTerminateRequest(pkt *LCPPacket) error 
 		ipv6cp.setState(IPV6CPStateStopped)
 	case IPV6CPStateOpened:
 		ipv6cp.zeroRestartCount()
+		ipv6cp.startTimer()
 		ipv6cp.sendTerminateAck(pkt.Identifier)
 		ipv6cp.setState(IPV6CPStateStopping)
 	}
@@ -533,7 +537,6 @@ func (ipv6cp *IPV6CPStateMachine) receiveTerminateRequest(pkt *LCPPacket) error 
 
 // receiveTerminateAck handles incoming Terminate-Ack
 func (ipv6cp *IPV6CPStateMachine) receiveTerminateAck(pkt *LCPPacket) error {
-	ipv6cp.stopTimer()
 
 	switch ipv6cp.state {
 	case IPV6CPStateClosing:
